@@ -1720,11 +1720,22 @@ class DocutilsRenderer(RendererProtocol):
             return ([warn_node] if warn_node else []) + messages
 
         if issubclass(directive_class, Include):
-            # this is a Markdown only option,
-            # to allow for altering relative image reference links
-            directive_class.option_spec["relative-images"] = directives.flag
-            directive_class.option_spec["relative-docs"] = directives.path
-            directive_class.option_spec["heading-offset"] = directives.nonnegative_int
+            # these are Markdown only options,
+            # e.g. to allow for altering relative image reference links.
+            # They are added to a subclass, so that the class shared with
+            # docutils/sphinx (and later rST ``.. include::``) is not modified.
+            directive_class = type(
+                directive_class.__name__,
+                (directive_class,),
+                {
+                    "option_spec": {
+                        **(directive_class.option_spec or {}),
+                        "relative-images": directives.flag,
+                        "relative-docs": directives.path,
+                        "heading-offset": directives.nonnegative_int,
+                    }
+                },
+            )
 
         try:
             parsed = parse_directive_text(
